@@ -31,8 +31,9 @@ MANIFEST = {
             "Great circle: a sigma (1-2f) <= distance <= a sigma (1+f) for every non-coincident, non-antipodal pair (sigma = central angle, haversine), "
             "hence within 0.6 % of the great circle of mean radius (2a+b)/3 for f <= 0.00359 (IAU76, WGS84). Parallax_correction: angle between geocentric "
             "and returned direction <= asin(rho sin(8.794'')/distance) <= asin(C/distance), C = (1+|h|/a) sin(8.794''), for distance > C (rho <= 1+|h|/a proved). "
-            "Binary64 incl. the poles: bit-exact correspondence model vs implementation every run + oracle. Searched, not proved: "
-            "meridian arc vs integral of rm, parallax_ecliptical, exactly antipodal pairs, all rounding.",
+            "Binary64 incl. the poles: bit-exact correspondence model vs implementation every run + oracle. "
+            "Parallax_ecliptical: closed form + the same displacement bound as thorough-tier obligations (C18_thorough.v). "
+            "Searched, not proved: meridian arc vs integral of rm, exactly antipodal pairs, all rounding.",
     "technique": "symbolic evaluation (pyrun) of the generated model over Coq reals + real analysis (lra/nra/field, "
                  "Reals trigonometry: cos_atan, atan_tan, sin/cos monotonicity, Rpower) + bit-exact differential "
                  "correspondence + oracle search with independent closed forms, Simpson integration and vector parallax",
@@ -71,15 +72,23 @@ CLAUSES = {
         "proved [spec function topo_dec, tied to the code by C18_parallax_correction_closed_form; every declination of the body and hour angle; 2q/(1-q) is about TWICE the horizontal parallax: weaker than the property's bound, it only shows the 1/distance decay]",
     "parallax_correction never displaces by more than the horizontal parallax and tends to 0 with distance":
         "proved [ideal, C18_parallax_displacement_bound, tied to the code by C18_parallax_correction_closed_form; measure: angle theta between the geocentric direction (ra, dec) and the returned direction (ra + delta_alpha, dec'); for distance > C = (1+|h|/a) sin 8.794'' (4.3e-5 AU): sin theta <= rho sin(8.794'')/distance <= C/distance and cos theta > 0, i.e. theta <= asin(rho sin pi/distance), rho <= 1+|h|/a the observer's geocentric distance (C18_rho_bound; rho = 1 only at sea level on the equator: the literal bound asin(sin pi/distance) is exceeded by the factor rho <= 1.0015 at 9000 m); every declination and hour angle; tan(delta_alpha) in Meeus' form: C18_parallax_dalpha_tan]",
-    "parallax_ecliptical: displacement bound and closed form":
-        "unproved (searched): compared with an independent vector computation (1e-9 rad), the bound asin(rho sin 8.794''/Delta) and the semidiameter formula",
+    "parallax_ecliptical: closed form, returned latitude = latitude of the topocentric vector, displacement <= horizontal parallax, -> 0 with distance":
+        "proved [ideal, THOROUGH-TIER obligations T18_parallax_ecliptical_closed_form (pins the code: transcription, all three branches of the latitude folding; hypotheses n != 0, asin argument in [-1,1], distance != 0), T18_ecliptical_latitude (folded atan2(cos lon' Z, n) = atan2(Z, hypot(n, Y))), T18_parallax_ecliptical_displacement_bound (same measure and constants as for parallax_correction: sin theta <= rho sin(8.794'')/distance <= C/distance, cos theta > 0, for n != 0 and distance > C)]; quick tier: searched (independent vector computation 1e-9 rad, bound, semidiameter); the semidiameter clause has only the closed form",
     "binary64 rounding of all of the above": "unproved (searched); correspondence stage ties binary64 runs to the model text bit for bit",
 }
 
 
 def proof_files(tier):
-    return ["C18_tac.v", "C18_spec.v", "C18_defs.v", "C18_bridge.v", "C18_rp.v", "C18_lv.v", "C18_rm.v",
-            "C18_dist_f.v", "C18_dist_a.v", "C18_dist.v", "C18_main.v", "C18_par.v", "C18_parbound.v", "C18_gc.v", "C18_gcm.v", "C18_parvec.v", "C18_parm.v", "C18.v"]
+    fs = ["C18_tac.v", "C18_spec.v", "C18_defs.v", "C18_bridge.v", "C18_rp.v", "C18_lv.v", "C18_rm.v",
+          "C18_dist_f.v", "C18_dist_a.v", "C18_dist.v", "C18_main.v", "C18_par.v", "C18_parbound.v", "C18_gc.v", "C18_gcm.v",
+          "C18_parvec.v", "C18_parm.v"]
+    if tier == "thorough":
+        # extra obligations (not in THEOREMS, which is the same in both tiers): Earth.parallax_ecliptical closed form
+        # (three branches, ~4 min of symbolic evaluation each, compiled in parallel) and its displacement bound;
+        # a failure breaks stage P
+        fs += ["C18_pecl.v", "C18_pecl_mid.v", "C18_pecl_hi.v", "C18_pecl_lo.v", "C18_pecl_all.v", "C18_vec.v",
+               "C18_peclm.v", "C18_thorough.v"]
+    return fs + ["C18.v"]
 
 
 # ----------------------------------------------------------------------------- generators
